@@ -106,6 +106,34 @@ def run_big(ctx, flavors):
     m.close()
 
 
+def run_wide(ctx, flavors):
+    """shapes whose *size* crosses an encoding boundary: a union with 130 alternatives (tags >= 128 need two varint bytes), also nullable
+    (tag shifted by one), as a step, as stream items and as vector elements"""
+    recs = [Rec("W%d" % i, [("v", P("int32"))]) for i in range(130)]
+    wide = U(tuple((None, N("W%d" % i)) for i in range(130)))
+    widen = U(tuple((None, N("W%d" % i)) for i in range(129)), True)
+    pkg = Pkg("Wide", recs + [Proto("WideP", [("one", wide), ("items", S(wide)), ("vec", V(wide)), ("opt", widen), ("optitems", S(widen)), ("end", P("uint8"))])])
+    m = rt.prepare_model(ctx, "wide", pkg, flavors)
+    if m is None:
+        raise common.Inconclusive("wide model did not build")
+    c = m.codec
+    proto = pkg.find("WideP")
+    sch = m.schema("WideP")
+    picks = [0, 1, 126, 127, 128, 129]
+    for k, first in enumerate(picks):
+        uv = lambda i, x: (i, [x])
+        vals = [uv(first, 7), [uv(i, -i) for i in picks], [uv(i, i * 3) for i in reversed(picks)],
+                (None if k == 0 else uv(min(first, 128), 9)), [None] + [uv(i, i) for i in picks if i < 129], 200 + k]
+        data = c.encode_stream(proto, sch, vals)
+        for ep in [rt.CppEndpoint(m, fl) for fl in flavors]:
+            r = ep.copy("WideP", "bin", "bin", data)
+            ctx.ev()
+            ctx.count("wide." + ep.name)
+            rt.judge(ctx, m, proto, vals, data, r, ep.name, "bin", "130-way union, first tag %d" % first, {"wide": first})
+        ctx.case(("wide", first))
+    m.close()
+
+
 def run(ctx):
     common.build_yardl()
     quick = ctx.tier == "quick"
@@ -131,6 +159,7 @@ def run(ctx):
     pmap(work, keys, workers=6)
     run_sweep(ctx, ["plain", "asan"], range(-12, 3))
     run_big(ctx, ["plain", "asan"])
+    run_wide(ctx, ["plain"])
     cxx.prune_cache()
 
 
